@@ -116,7 +116,7 @@ func c01Families() []c01Family {
 	fDecl := tmplx.T("<!DOCTYPE html>", "<!doctype", "<![CDATA[", "]]>", "<?", "?>", "</ ", "<1", "&lt", "&#", "x", ">", "<!", S)
 	core10 := tmplx.T("<a ", "href=\"", "title='", "\"", "'", ">", "x", "/x?", S, "</a>")
 	fCtl := append(append([]tmplx.Frag{}, core10...), tmplx.If, tmplx.Else, tmplx.End, tmplx.Range, tmplx.With,
-		tmplx.Frag{Text: `{{template "h" $}}`}, tmplx.Frag{Text: `{{template "q" $}}`}, tmplx.Frag{Text: `{{template "open" $}}`})
+		tmplx.Frag{Text: `{{template "h" $}}`}, tmplx.Frag{Text: `{{template "q" $}}`}, tmplx.Frag{Text: `{{template "open" $}}`}, tmplx.Frag{Text: `{{template "ot" $}}`})
 	fHelper := append(tmplx.T(S, "\"", "\">", "x", "<b>"), tmplx.Frag{Text: `{{template "open" $}}`}, tmplx.Frag{Text: `{{template "q" $}}`}, tmplx.Frag{Text: `{{template "h" $}}`})
 	var full []tmplx.Frag
 	seen := map[string]bool{}
@@ -495,7 +495,14 @@ func c01ProductFamilies(thorough bool) []c01Product {
 	namesplit := c01Product{"namesplit", [][]string{
 		{"<a", "<s", "<t"}, split, {"", "cript", "extarea", " title", " data-x"}, split, {"", "/", "x"}, {"=", ""}, {"\"" + S + "\"", "'" + S + "'", ""}, {">", " >"}, {S, ""}, {"", "</script>", "</textarea>"},
 	}}
-	return append([]c01Product{tag, namesplit}, raws...)
+	// loop bodies (and their else branches) that end in another context than they start in, directly or through a callee
+	loops := c01Product{"loops", [][]string{
+		{"<ul>", "<b title=\"", ""}, {"{{range $.L}}"},
+		{"{{template \"ot\" $}}", "<b title=\"" + S, "{{template \"ot\" $}}x", "{{if $.C}}{{template \"ot\" $}}{{else}}<b title=\"" + S + "{{end}}", S + "\" id=\"", "{{template \"qi\" $}}", S + "\"><b title=\""},
+		{"{{else}}", ""}, {"<b title=\"none", "<b title=\"", ""}, {"{{end}}"}, {"\">x</b>", "x\">", ">"},
+		{"{{define \"ot\"}}<b title=\"" + S + "{{end}}{{define \"qi\"}}" + S + "\" id=\"{{end}}"},
+	}}
+	return append([]c01Product{tag, namesplit, loops}, raws...)
 }
 
 // c01StateFamily groups tokenizer states by the construct the tokenizer is inside of.
